@@ -116,8 +116,14 @@ def check_line_(line, hout, dout, stats, notes):
     ht, dt = hout.split(), dout.split()
     if len(ht) != len(ops) + 1 or len(dt) != len(ops) + 1:
         return [("harness-output", "unexpected output length (harness %d, model %d, ops %d)" % (len(ht), len(dt), len(ops)))]
-    raw = any(o[0] == "M" for o in ops)
+    raw = any(o[0] in ("M", "E") for o in ops)
     if raw:
+        # ExogenousModel::skip asked directly (level E): its answer — false for every name but "exogenous", a throw from
+        # exogenous_model() when nothing is attached — is compared strictly; the rest of a raw history is notes only
+        for i, (o, a, b) in enumerate(zip(ops, ht[1:], dt[1:])):
+            if o[0] == "E" and a.split("/")[0] != b.split("/")[0]:
+                return [("exogenous-model-skip-answer", "ExogenousModel::skip(\"%s\", %d) through getStateModel().exogenous_model() answered %s, the model says %s (step %d)" % (
+                    o[1], o[2], a.split("/")[0], b.split("/")[0], i + 1))]
         # state-model-level commands bypass the filter: outside the property, compared as notes only
         br = stats.setdefault("branches", {})
         for i, (a, b) in enumerate(zip(ht, dt)):
@@ -269,6 +275,11 @@ def exhaustive_cases(seed):
                         ops = ["P:prediction:%d" % p, "M:state:%d" % s] + (["M:exogenous:%d" % e] if exo else []) + ["p", "c", "M:prediction:1", "M:~:1"]
                         cases.append(("skip %s %d %s %d %d %d %s" % (pk, exo, ck, (seed * 7919 + idx) % 100000, 2 + idx % 2, 2 + idx % 3, " ".join(ops)),
                                       {"style": "raw", "pk": pk, "exo": exo}))
+            # ExogenousModel::skip itself: unknown / foreign names are refused (false), "exogenous" accepted; without a model the accessor throws
+            idx += 1
+            ops = ["E:state:1", "E:~:1", "E:prediction:0", "E:bogus:1", "p", "E:exogenous:1", "p", "c", "E:all:1", "E:exogenous:0", "p"]
+            cases.append(("skip %s %d %s %d %d %d %s" % (pk, exo, ck, (seed * 7919 + idx) % 100000, 2, 2, " ".join(ops)),
+                          {"style": "raw", "pk": pk, "exo": exo}))
     return cases
 
 
